@@ -5,7 +5,8 @@ Line-protocol driver for the C04 model (Model/Rollup.lean).
   loc <h> <tgt>
   flush <h> <file> <nonEmpty> | <metric>/<start>/<end>/<series>.<field>.<ftype>.<slot>.<val>,... ...
   rollup <h> ivs=<a,b|-> dvs=<a,b|-> avail=<a,b|-> cut=<n|->
-  reopen
+  reopen | state
+  rollupq <h> ivs=.. dvs=.. avail=..   (one family's job of a concurrent ForceRollup)
   read <tgt>
   arith <src> <tgt> <srcSegTime> <fTime> | <slot> <slot> ...
 -/
@@ -153,6 +154,29 @@ def step (d : DS) (ws : List String) : DS × String :=
           let rs := if recs.isEmpty then "-" else ";".intercalate (recs.map showRec)
           ({ d with st := σ, tfiles := d.tfiles ++ o }, s!"recs={rs} {showState σ}")
     | _, _, _, _, _ => (d, "bad-op")
+  | ["rollupq", h, ivs, dvs, avail] =>
+    -- the job of family `h` inside ONE Store.ForceRollup (jobs of different families interleave;
+    -- they touch disjoint keys, so the model runs them one after the other); state via `state`
+    match h.toNat?, (kv? ivs "ivs").bind parseNatList, (kv? dvs "dvs").bind parseNatList,
+      (kv? avail "avail").bind parseNatList with
+    | some h, some ivs, some dvs, some av =>
+      let recs := rollupRecs d.st h ivs (fun i => decide (i ∈ av)) dvs
+      let outs : Option (List (Iv × FileData)) := recs.foldl (fun acc r =>
+        match acc, r with
+        | some l, .merge i inputs =>
+          let fds := inputs.filterMap (fun k => (d.files.find? (·.1 = k)).map (·.2))
+          match mergeFiles Generated.C04.placementByTimestamp (mkR stdCal d.src i (d.day * oneDay) h) fds with
+          | some o => some (l ++ [(i, o)])
+          | none => none
+        | acc, _ => acc) (some [])
+      match outs with
+      | none => ({ d with dead := true }, "panic-div0")
+      | some o =>
+        let σ := d.st.step (.rollup h ivs av dvs none)
+        let rs := if recs.isEmpty then "-" else ";".intercalate (recs.map showRec)
+        ({ d with st := σ, tfiles := d.tfiles ++ o }, s!"recs={rs}")
+    | _, _, _, _ => (d, "bad-op")
+  | ["state"] => (d, showState d.st)
   | ["reopen"] =>
     let σ := d.st.step (.reopen d.st.pending d.st.refs)
     ({ d with st := σ }, showState σ)
